@@ -244,6 +244,29 @@ func (b *Backend) DropConns(n int) {
 	h.dropAll()
 }
 
+// DropOldestConn closes the started connection of host n that was opened first (the others stay); false if there is none.
+func (b *Backend) DropOldestConn(n int) bool {
+	b.mu.Lock()
+	h := b.Hosts[b.IP(n)]
+	b.mu.Unlock()
+	if h == nil {
+		return false
+	}
+	h.mu.Lock()
+	var oldest *Conn
+	for c := range h.conns {
+		if c.started && !c.registered && (oldest == nil || c.ID < oldest.ID) {
+			oldest = c
+		}
+	}
+	h.mu.Unlock()
+	if oldest == nil {
+		return false
+	}
+	oldest.close()
+	return true
+}
+
 func (h *Host) dropAll() {
 	h.mu.Lock()
 	conns := make([]*Conn, 0, len(h.conns))
